@@ -24,6 +24,9 @@ type planDest struct {
 	// second socket.
 	AltPort bool `json:"altPort,omitempty"`
 	SameAs  int  `json:"sameAs,omitempty"`
+	// Gated: a name whose answer the owned resolver can hold back (the session's uplink then waits inside
+	// its packer and datagrams back up in the send channel); used by the one session that owns it.
+	Gated bool `json:"gated,omitempty"`
 	// Port0: the target's IP with port 0 - a datagram the relay's outbound socket cannot send (EINVAL).
 	Port0 bool `json:"port0,omitempty"`
 }
@@ -36,6 +39,8 @@ type tourStops struct {
 }
 
 type planOp struct {
+	// backlog: the resolver holds the answer for a name, the session sends that name (its uplink now waits),
+	// then N more datagrams, then the answer is released; afterwards a few datagrams back to back.
 	// paced | burst | rebind | tour | relayswitch (send to another client-facing address of the relay, one
 	// echo, then a burst of replies) | freshburst (new client socket, burst of N datagrams of which some are
 	// addressed to the unsendable destination Alt, then a paced datagram)
@@ -45,6 +50,9 @@ type planOp struct {
 	N    int        `json:"n"`
 	Fill int        `json:"fill"`
 	Tour *tourStops `json:"tour,omitempty"`
+	// backlog: Prime is another name (sent first so that the gated name Alt is not the packer's cached one),
+	// Alt the gated name, Dest an IP destination, N the number of datagrams sent while the uplink waits.
+	Prime int `json:"prime,omitempty"`
 }
 
 type planSession struct {
@@ -65,6 +73,7 @@ type plan struct {
 	ClientPad   bool          `json:"clientPad"` // harness ss2022 client pads
 	BatchMode   string        `json:"batchMode"`
 	RelayBatch  int           `json:"relayBatch"`
+	SendChanCap int           `json:"sendChanCap"` // 0 = default (1024) | 64 (the minimum)
 	RecvBatch   int           `json:"recvBatch"`
 	ClientProto string        `json:"clientProto"`
 	ClientEIH   bool          `json:"clientEIH"`
@@ -115,9 +124,10 @@ func drawPlan(rt *rapid.T) *plan {
 	}
 	p.BatchMode = rapid.SampledFrom([]string{"no", "sendmmsg"}).Draw(rt, "batchMode")
 	if p.BatchMode == "sendmmsg" {
-		p.RelayBatch = rapid.SampledFrom([]int{0, 1, 2, 8}).Draw(rt, "relayBatch")
+		p.RelayBatch = rapid.SampledFrom([]int{0, 1, 2, 4, 8, 16}).Draw(rt, "relayBatch")
 		p.RecvBatch = rapid.SampledFrom([]int{0, 1, 2, 8}).Draw(rt, "recvBatch")
 	}
+	p.SendChanCap = rapid.SampledFrom([]int{0, 64, 64}).Draw(rt, "sendChanCap")
 	p.ClientProto = rapid.SampledFrom(clientProtos).Draw(rt, "clientProto")
 	if p.ClientProto == "direct" {
 		p.Topology = "direct"
@@ -226,6 +236,25 @@ func drawPlan(rt *rapid.T) *plan {
 				ps.B = append(ps.B, op)
 			}
 		}
+		// a backlog while the uplink waits for a held DNS answer (the relay itself must resolve: direct client)
+		if p.ServerProto != "direct" && p.Topology == "direct" && !excludeSharedPacker() && rapid.IntRange(0, 9).Draw(rt, "backlog") < 4 {
+			g := len(p.Dests)
+			p.Dests = append(p.Dests, planDest{Sock: rapid.IntRange(0, p.NSock-1).Draw(rt, "gatedSock"), Name: true, Gated: true})
+			capacity := 1024
+			if p.SendChanCap != 0 {
+				capacity = p.SendChanCap
+			}
+			k := rapid.SampledFrom([]int{5, 20, 40, 63, 64, 70, 100}).Draw(rt, "backlogN")
+			if capacity == 64 && rapid.Bool().Draw(rt, "overflow") {
+				k = rapid.SampledFrom([]int{64, 70, 100}).Draw(rt, "overflowN")
+			}
+			op := planOp{Kind: "backlog", Dest: rapid.IntRange(0, p.NSock-1).Draw(rt, "backlogIP"), Alt: g, Prime: p.NSock + rapid.IntRange(0, nNames-1).Draw(rt, "primeName"), N: k, Fill: drawFill(rt)}
+			if rapid.Bool().Draw(rt, "backlogInA") {
+				ps.A = append(ps.A, op)
+			} else {
+				ps.B = append(ps.B, op)
+			}
+		}
 		if p.ServerProto != "direct" && rapid.IntRange(0, 9).Draw(rt, "garbageFirst") < 4 {
 			ps.GarbageFirst = 1 + rapid.IntRange(0, len(garbageKinds(p.ServerProto))-1).Draw(rt, "garbageFirstKind")
 		}
@@ -251,7 +280,7 @@ func drawPlan(rt *rapid.T) *plan {
 }
 
 func (p *plan) class() string {
-	names, rebind, burst, tour := 0, false, false, false
+	names, rebind, burst, tour, backlog := 0, false, false, false, false
 	for _, s := range p.Sessions {
 		for _, ops := range [][]planOp{s.A, s.B} {
 			for _, o := range ops {
@@ -261,9 +290,10 @@ func (p *plan) class() string {
 				case "burst":
 					burst = true
 				}
-				if o.Kind == "tour" {
+				if o.Kind == "tour" || o.Kind == "backlog" {
 					names++
-					tour = true
+					tour = tour || o.Kind == "tour"
+					backlog = backlog || o.Kind == "backlog"
 				} else if o.Kind != "rebind" && (p.Dests[o.Dest].Name || (o.Kind != "freshburst" && p.Dests[o.Alt].Name)) {
 					names++
 				}
@@ -274,7 +304,7 @@ func (p *plan) class() string {
 	if names > 0 {
 		nb = "names+"
 	}
-	return fmt.Sprintf("%s|eih=%v|%s|rb=%d,%d|%s|ceih=%v|%s|sess=%d|socks=%d|v6=%v|%s|rebind=%v|burst=%v|g=%d|alt=%d|tour=%v|drop=%d|to=%v|wild=%s",
+	return fmt.Sprintf("%s|eih=%v|%s|rb=%d,%d|%s|ceih=%v|%s|sess=%d|socks=%d|v6=%v|%s|rebind=%v|burst=%v|g=%d|alt=%d|tour=%v|drop=%d|to=%v|wild=%s|cap=%d|backlog=%v",
 		p.ServerProto, p.ServerEIH, p.BatchMode, p.RelayBatch, p.RecvBatch, p.ClientProto, p.ClientEIH, p.Topology,
-		len(p.Sessions), p.NSock, p.V6, nb, rebind, burst, len(p.Garbage), p.AltEvery, tour, p.DropFirst, p.TargetOnly, p.Wildcard)
+		len(p.Sessions), p.NSock, p.V6, nb, rebind, burst, len(p.Garbage), p.AltEvery, tour, p.DropFirst, p.TargetOnly, p.Wildcard, p.SendChanCap, backlog)
 }
